@@ -10,7 +10,7 @@ import random
 
 from . import common as C
 
-NSHAPES = 19
+NSHAPES = 20
 # what each shape declares = borrows when the code is right (mirror of dispatch_dom.rs)
 RW = {
     0: (["Entities", "A"], []), 1: (["Entities"], ["A"]), 2: (["Entities", "A", "B"], []),
@@ -99,6 +99,17 @@ def check(prop, tier, seed):
             scripts.append({"tid": tid, "kind": "dispatch", "threads": 4, "rounds": 4 if tier == "quick" else 12,
                             "systems": [{"shape": a, "deps": [], "spin": 5}, {"shape": b, "deps": [], "spin": 5},
                                         {"shape": a, "deps": [], "spin": 3}]})
+            tid += 1
+    # many systems of one stage that really use what they share: lazy queuing from all of them at
+    # once, and several readers of the same storages fetching while the others are running
+    for th in ([2, 4, 8, 16] if tier == "quick" else [2, 3, 4, 8, 16, 32, 64]):
+        for rep in range(2 if tier == "quick" else 10):
+            scripts.append({"tid": tid, "kind": "dispatch", "threads": th, "rounds": 6,
+                            "systems": [{"shape": 19, "deps": [], "spin": rng.choice([2, 6])} for _ in range(6)]
+                                       + [{"shape": 14, "deps": [], "spin": 4}, {"shape": 7, "deps": [], "spin": 4}]})
+            tid += 1
+            scripts.append({"tid": tid, "kind": "dispatch", "threads": th, "rounds": 6,
+                            "systems": [{"shape": rng.choice([0, 2, 11, 6]), "deps": [], "spin": rng.choice([1, 2, 5])} for _ in range(8)]})
             tid += 1
     workdir = os.path.join(C.OUT, "work", "%s_%d" % (key, os.getpid()))
     C.sh(["rm", "-rf", workdir])
